@@ -1,5 +1,6 @@
 import Sudachi.Proofs.Edit
 import Sudachi.Proofs.Partition
+import Sudachi.Proofs.PartitionUtf8
 import Sudachi.Props.C02
 import Sudachi.Model.TotalIO
 /-!
@@ -178,139 +179,10 @@ theorem tokens_partition_original (lv : LenV) (cfg : Cfg) (orig : List Nat) (hor
     (textOf r.tables ≠ [] ∧ r.morphs ≠ [] ∧ ∃ acs, accessAll orig r = .ok acs ∧
       IsPartition orig (acs.map (fun a => (a.b, a.e))) ∧
       ∀ a ∈ acs, a.sb = a.b ∧ a.se = a.e ∧ a.bc = nchars (orig.take a.b) ∧ a.ec = nchars (orig.take a.e)) := by
-  unfold tokenize at h
-  cases h0 : startBuild orig with
-  | none => rw [h0] at h; simp at h
-  | some l0 =>
-    rw [h0] at h; simp only [] at h
-    cases h1 : rewriteInput lv cfg.inputPlugins l0 with
-    | err k => rw [h1] at h; simp at h
-    | panic w' => rw [h1] at h; simp at h
-    | ok l =>
-      rw [h1] at h; simp only [] at h
-      obtain ⟨hbuf, hlen⟩ := rewriteInput_inv lv orig horig cfg.inputPlugins l0 l hplug (startBuild_bufInv orig l0 h0) h1
-      cases h2 : Wire.utf8Decode (textOf l) with
-      | none => rw [h2] at h; simp at h
-      | some chars =>
-        rw [h2] at h; simp only [] at h
-        split at h
-        · -- no character: no morpheme; the text is empty
-          rename_i hemp
-          cases h
-          left
-          refine ⟨?_, rfl⟩
-          have hc : chars = [] := by simpa using hemp
-          subst hc
-          cases ht : textOf l with
-          | nil => rfl
-          | cons b0 rest => rw [ht] at h2; exact absurd h2 (utf8Decode_cons_ne_nil b0 rest)
-        · rename_i hne0
-          right
-          have hne : chars.isEmpty = false := by
-            cases hc : chars.isEmpty with
-            | true => exact absurd hc hne0
-            | false => rfl
-          have hpos : 1 ≤ chars.length := by
-            cases chars with
-            | nil => simp at hne
-            | cons _ _ => simp
-          have hr : Reaches lv cfg orig chars := ⟨l0, l, h0, h1, h2⟩
-          have hb := mkBufV_ok rv bowFix tab chars (cfg.mkBuf chars) (hmk chars)
-          have hnc := hutf l0 l chars h0 h1 h2
-          have htne : textOf l ≠ [] := by
-            intro hn; rw [hn] at hnc
-            have : nchars ([] : List Nat) = 0 := rfl
-            omega
-          have hinv : Inv isStart (BoOf orig) orig.length l := by
-            rcases hbuf with hi | he
-            · exact hi
-            · exact absurd he htne
-          have horne : orig ≠ [] := by
-            intro hn
-            subst hn
-            have e0 : textOf l0 = [] := by
-              unfold startBuild at h0
-              simp only [List.length_nil, MAX_LENGTH] at h0
-              cases h0; rfl
-            exact htne (rewriteInput_empty lv [] cfg.inputPlugins l0 l hplug e0 h1)
-          -- the tables of the rewritten text
-          obtain ⟨b0, rest, htb⟩ : ∃ b0 rest, textOf l = b0 :: rest := by
-            cases ht : textOf l with
-            | nil => exact absurd ht htne
-            | cons b0 rest => exact ⟨b0, rest, rfl⟩
-          have hs0 : isStart b0 = true := isStart_head_of_utf8 b0 rest chars (by rw [← htb]; exact h2)
-          have htab := tablesOk_of_text (textOf l) b0 rest htb hs0
-          have hbo0 : BoOf (textOf l) 0 := Or.inr ⟨by rw [htb]; simp, by simp [htb, hs0]⟩
-          have hnb : (textOf l).length ≤ 65535 := hlen
-          have hncb : nchars (textOf l) ≤ 65535 := by
-            have : nchars (textOf l) ≤ (textOf l).length := by unfold nchars; exact List.length_filter_le _ _
-            omega
-          cases h3 : Oov.buildLattice cfg.providers cfg.lex (cfg.mkBuf chars) with
-          | err k => rw [h3] at h; simp at h
-          | panic w' => rw [h3] at h; simp at h
-          | ok nodes =>
-            rw [h3] at h; simp only [] at h
-            have hnodes : ∀ n ∈ nodes.map toVit, n.b < n.e ∧ n.e ≤ chars.length := by
-              intro n hn
-              obtain ⟨x, hx, rfl⟩ := List.mem_map.mp hn
-              obtain ⟨a1, a2⟩ := buildLattice_cand cfg.providers cfg.lex (cfg.mkBuf chars) hb.2.1 nodes h3 x hx
-              rw [hb.2.2] at a2
-              simp only [toVit]
-              rw [asU16_id x.b (by omega), asU16_id x.e (by omega)]
-              exact ⟨a1, a2⟩
-            cases h4 : buildAll addI32 I32_MAX cfg.conn (nodes.map toVit) (reset chars.length) [] with
-            | err k => rw [h4] at h; simp at h
-            | panic w' => rw [h4] at h; simp at h
-            | ok r4 =>
-              obtain ⟨rows, ents⟩ := r4
-              rw [h4] at h; simp only [] at h
-              cases h5 : connectEos addI32 I32_MAX cfg.conn rows chars.length with
-              | err k => rw [h5] at h; simp at h
-              | panic w' => rw [h5] at h; simp at h
-              | ok r5 =>
-                obtain ⟨c, pe, pi⟩ := r5
-                rw [h5] at h; simp only [] at h
-                have hpinv := buildAll_pathInv addI32 cfg.conn chars.length (by omega) (nodes.map toVit) (reset chars.length) []
-                  rows ents (reset_pathInv chars.length _ (hrowsz chars nodes hr h3)) hnodes h4
-                obtain ⟨hpe, row, p, q1, q2, q3⟩ := connectEos_ptr addI32 cfg.conn chars.length (by omega) rows hpinv c pe pi h5
-                rw [hpe] at h
-                obtain ⟨es, g1, g2, g3⟩ := topPath_chain chars.length rows hpinv chars.length (chars.length + 1) pi p [] row
-                  hpos (by omega) q1 q2 q3
-                rw [List.append_nil] at g1
-                rw [g1] at h; simp only [] at h
-                cases h7 : mapM (resultNode (c2b (textOf l))) es with
-                | err k => rw [h7] at h; simp at h
-                | panic w' => rw [h7] at h; simp at h
-                | ok path =>
-                  rw [h7] at h; simp only [] at h
-                  rw [hnc] at g2
-                  obtain ⟨t1, t2⟩ := resultNodes_tiles (b2c (textOf l)) (c2b (textOf l)) _ _ htab hnb (c2b_last (textOf l))
-                    es 0 0 path g2 (c2b_head (textOf l) hbo0) h7
-                  have hpath : PathOk (b2c (textOf l)) (c2b (textOf l)) (nchars (textOf l)) (textOf l).length path := ⟨t1, t2⟩
-                  cases h8 : cfg.rewrite path with
-                  | err k => rw [h8] at h; simp at h
-                  | panic w' => rw [h8] at h; simp at h
-                  | ok path' =>
-                    rw [h8] at h; simp only [] at h
-                    obtain ⟨u1, u2⟩ := hrew _ _ _ _ path path' hpath h8
-                    cases h9 : splitPath .d6fix (b2c (textOf l)) (c2b (textOf l)) path' with
-                    | err k => rw [h9] at h; simp at h
-                    | panic w' => rw [h9] at h; simp at h
-                    | ok ms =>
-                      rw [h9] at h; simp only [] at h
-                      cases h
-                      have hle : ∀ n ∈ path'.map (·.1), Good (b2c (textOf l)) (c2b (textOf l)) n ∧ n.eb ≤ (textOf l).length := by
-                        intro n hn
-                        refine ⟨u2 n hn, ?_⟩
-                        have hm : n.eb ∈ c2b (textOf l) := List.mem_of_getElem? (u2 n hn).2.2.2.2
-                        rcases (c2b_spec (textOf l)).2 n.eb hm with e1 | ⟨e1, _⟩ <;> omega
-                      obtain ⟨v1, v2⟩ := splitPath_d6fix_tiles _ _ _ _ htab hnb hncb path' ms 0 0 _ _ h9 u1 hle
-                      have hmsne : ms ≠ [] := by
-                        intro hn; subst hn
-                        obtain ⟨e1, _⟩ := v1
-                        omega
-                      obtain ⟨acs, w1, w2, w3⟩ := pathOk_partition orig horne horig l hinv _ ms hmsne ⟨v1, v2⟩
-                      exact ⟨htne, hmsne, acs, w1, w2, w3⟩
+  refine Utf8Inv.tokens_partition_core lv cfg orig horig ?_ hutf rv bowFix tab hmk hrowsz hrew r h
+  intro l0 l a1 a2
+  refine ⟨rewriteInput_inv lv orig horig cfg.inputPlugins l0 l hplug (startBuild_bufInv orig l0 a1) a2, fun e0 => ?_⟩
+  exact rewriteInput_empty lv orig cfg.inputPlugins l0 l hplug e0 a2
 
 open Total Partition Oov in
 /-- **`hrew` is a theorem for every configured stack of path-rewrite plugins** (C14 composed): with the word-info /
@@ -404,6 +276,114 @@ theorem recycled_lattice_tokens_partition (o : List Nat) (hne : o ≠ []) (h0 : 
   obtain ⟨r1, r2, r3, r4, r5⟩ := surfaces_partition o hne h0 bs l hok lv h cuts hmono hlast
     (fun c hc hlt => isB_of_boOf hi.shape c (hbo c hc) hlt)
   exact ⟨r1, r2, r3, fun c hc => r4 c hc (by have := hle c hc; omega), fun c hc => r5 c hc (hle c hc)⟩
+
+/-! ## the bundled input-text plugins: `hplug` and `hutf` are theorems -/
+
+open Total Partition Oov Utf8Inv in
+/-- **`PluginOk` for every bundled input-text plugin, at BYTE level, relative to the UTF-8 invariant** (the clause of the
+property "under every plugin configuration", for the plugins the repository ships).  `TotalIO.plugin a S c` is the function
+of the current text (bytes) the driver runs for `DefaultInputTextPlugin` (`c = 'D'`), `ProlongedSoundMarkPlugin` (`'P'`) and
+`IgnoreYomiganaPlugin` (any other tag) with ANY settings `S` and ANY Unicode facts `a`.  On every buffer whose offset map
+satisfies the C08 invariant and whose text IS an encoding (`Utf8Inv.Enc`: `textOf l = TotalIO.encode cs`, the model's own
+encoder) the plugin's edits are sorted, non-overlapping, in range and on character starts of the byte text, the text
+`resolve_edits` writes is again an encoding, and nothing is replaced in an empty text.  (Without the invariant the statement
+is false: on a byte text that is not an encoding a prefix sum of widths need not be a character start — which is why
+`Partition.PluginOk`, quantified over every buffer, could not be proved for these plugins.) -/
+theorem bundled_plugin_ok (orig : List Nat) (a : Array Normalize.Fact) (S : Normalize.Setup) (c : Char) :
+    PluginOkJ Enc orig (TotalIO.plugin a S c) :=
+  bundled_pluginOkJ orig a S c
+
+open Total Partition Oov Utf8Inv in
+/-- **the unrestricted `Partition.PluginOk` is FALSE for a bundled plugin** (why `hplug` could not be discharged as it was
+stated, and why `bundled_plugin_ok` is relative to the UTF-8 invariant).  The buffer `start_build` makes of the six bytes
+`C1 81 C1 81 C1 81` (overlong forms of `A`; not an encoding, never a Rust `&str`) satisfies the C08 invariant; the model's
+decoder, which does not inspect continuation bytes, reads `AAA`; `ProlongedSoundMarkPlugin` with the mark `A` replaces code
+points 0..3 = bytes 0..3 — and byte 3 is a continuation byte: `EditsB` fails. -/
+theorem bundled_plugin_ok_needs_utf8_counterexample : ¬ PluginOk overlong (TotalIO.plugin exFacts markA 'P') := by
+  intro h
+  have hi := ident_inv overlong (by decide)
+  obtain ⟨_, hb⟩ := h.adm (identFrom 0 overlong) _ hi (by rw [textOf_identFrom]; exact plugin_overlong)
+  have := (hb ⟨0, 3, [0x41]⟩ (by simp)).2 (by decide)
+  simp [overlong, identFrom, isB, isStart] at this
+
+open Total Partition Oov Utf8Inv in
+/-- **the UTF-8 invariant through every stack of bundled plugins** (induction over the stack; a rejected commit ends the
+analysis, a text that was deleted completely is handed on unchanged): for an input that is an encoding (a `&str`), after
+`start_build` and ANY list of bundled plugins with their commits (either length guard) the offset map satisfies the C08
+invariant or the text is empty, the text has at most 65535 bytes and IS the encoding of a code-point list — in particular
+it decodes (`hutf` of `C03.tokenize_total`) to as many characters as it has character starts (`hutf` of
+`tokens_partition_original`). -/
+theorem bundled_stack_utf8 (lv : LenV) (orig : List Nat) (horig : ∃ cs, orig = TotalIO.encode cs)
+    (ps : List (List Nat → Outcome (List (Edit Nat)))) (hbundled : ∀ p ∈ ps, Bundled p)
+    (l0 l : List (P Nat)) (hs : startBuild orig = some l0) (hr : rewriteInput lv ps l0 = .ok l) :
+    BufInv orig l ∧ (∃ cs, textOf l = TotalIO.encode cs ∧ Wire.utf8Decode (textOf l) = some cs ∧ cs.length = nchars (textOf l)) := by
+  obtain ⟨r1, ⟨cs, ht⟩, _⟩ := bundled_reach lv orig horig ps hbundled l0 l hs hr
+  have hd : Wire.utf8Decode (textOf l) = some cs := by rw [ht]; exact decode_encode cs
+  exact ⟨r1, cs, ht, hd, enc_hutf l ⟨cs, ht⟩ cs hd⟩
+
+open Total Partition Oov Utf8Inv in
+/-- **one batch of a bundled plugin: the byte text stays in step with C07's code-point text.**  If the text of the buffer is
+the encoding of `cs`, the text after the plugin's batch is the encoding of `Normalize.applyEdits` of the plugin's C07 edit
+list on `cs` — the function whose result C07 specifies (`default_eq_spec`, `psm_spec`, `yomigana_spec`). -/
+theorem bundled_batch_text (orig : List Nat) (a : Array Normalize.Fact) (S : Normalize.Setup) (c : Char)
+    (l : List (P Nat)) (cs : List Nat) (es : List (Edit Nat)) (hinv : Inv isStart (BoOf orig) orig.length l)
+    (ht : textOf l = TotalIO.encode cs) (h : TotalIO.plugin a S c (textOf l) = .ok es) :
+    ∃ t, Normalize.applyEdits (cpEdits a S c cs) cs = some t ∧ textOf (resolve l es) = TotalIO.encode t :=
+  bundled_text_eq_applyEdits orig a S c l cs es hinv ht h
+
+open Total Partition Oov Utf8Inv in
+/-- **`tokens_partition_original_bundled` — the property for the whole of `do_tokenize` with NEITHER `hplug` NOR `hutf`**, for
+every configuration whose input-text plugins are bundled ones (`hbundled`: every element of `cfg.inputPlugins` is
+`TotalIO.plugin a S c` for some facts, settings and tag — any number of them in any order, the same plugin twice
+included).  `horig` is now the `&str` guarantee in full: the input IS an encoding.  The other hypotheses are those of
+`tokens_partition_original` (`hmk`, `hrowsz`, `hrew`: see there; `hrew` is `rewrite_stack_tiles` for the C14 stacks). -/
+theorem tokens_partition_original_bundled (lv : LenV) (cfg : Cfg) (orig : List Nat)
+    (horig : ∃ cs, orig = TotalIO.encode cs)
+    (hbundled : ∀ p ∈ cfg.inputPlugins, Bundled p)
+    (rv : Oov.Variant) (bowFix : Bool) (tab : List (Nat × Nat))
+    (hmk : ∀ chars, Oov.mkBufV rv bowFix tab chars = some (cfg.mkBuf chars))
+    (hrowsz : ∀ chars nodes, Reaches lv cfg orig chars → Oov.buildLattice cfg.providers cfg.lex (cfg.mkBuf chars) = .ok nodes →
+      ∀ e, (nodes.map toVit).countP (fun n => n.e == e) ≤ 65535)
+    (hrew : ∀ (tb2c tc2b : List Nat) (nc nb : Nat) path path', PathOk tb2c tc2b nc nb path → cfg.rewrite path = .ok path' →
+      PathOk tb2c tc2b nc nb (path'.map (·.1)))
+    (r : Result) (h : tokenize .d6fix lv cfg orig = .ok r) :
+    (textOf r.tables = [] ∧ r.morphs = []) ∨
+    (textOf r.tables ≠ [] ∧ r.morphs ≠ [] ∧ ∃ acs, accessAll orig r = .ok acs ∧
+      IsPartition orig (acs.map (fun a => (a.b, a.e))) ∧
+      ∀ a ∈ acs, a.sb = a.b ∧ a.se = a.e ∧ a.bc = nchars (orig.take a.b) ∧ a.ec = nchars (orig.take a.e)) := by
+  have h0 : BoOf orig 0 := by
+    obtain ⟨cs, hcs⟩ := horig
+    have := boOf_byteOff cs 0
+    rwa [byteOff_zero, ← hcs] at this
+  refine tokens_partition_core lv cfg orig h0 ?_ ?_ rv bowFix tab hmk hrowsz hrew r h
+  · intro l0 l a1 a2
+    obtain ⟨r1, _, r3⟩ := bundled_reach lv orig horig cfg.inputPlugins hbundled l0 l a1 a2
+    exact ⟨r1, r3⟩
+  · intro l0 l chars a1 a2 a3
+    obtain ⟨_, r2, _⟩ := bundled_reach lv orig horig cfg.inputPlugins hbundled l0 l a1 a2
+    exact enc_hutf l r2 chars a3
+
+/-! `C03.tokenize_total` with `hplug`/`hutf` discharged for bundled input-text plugins is stated next to the theorem it
+specialises: **`C03.tokenize_total_bundled_plugins`** in `Props/C03.lean` (that file imports this one for
+`tokens_partition_original`, so the corollary cannot live here without an import cycle); its proof uses `bundled_reach` and
+`enc_decodes` of `Proofs/PartitionUtf8.lean` exactly as `tokens_partition_original_bundled` above does. -/
+
+/-! ### non-vacuity of `horig` (encoded input) and `hbundled` -/
+
+open Total Partition Oov Utf8Inv in
+/-- `horig`: `あA` (4 bytes) is the encoding of its two code points; `hbundled`: the stack Default, ProlongedSoundMark,
+IgnoreYomigana, Default again, over any facts and settings, consists of bundled plugins; and a bundled plugin DOES edit:
+`ProlongedSoundMarkPlugin` (`exSetup`) replaces bytes 0..6 of `ーーA` by the three bytes of `ー` (`exPlugin_psm`) — an edit
+whose end, 6, is a character start only because the text is an encoding -/
+example (a : Array Normalize.Fact) (S : Normalize.Setup) :
+    (∃ cs, [0xE3, 0x81, 0x82, 0x41] = TotalIO.encode cs) ∧
+    (∀ p ∈ [TotalIO.plugin a S 'D', TotalIO.plugin a S 'P', TotalIO.plugin a S 'Y', TotalIO.plugin a S 'D'], Bundled p) ∧
+    TotalIO.plugin exFacts exSetup 'P' (TotalIO.encode [0x30FC, 0x30FC, 0x41]) = .ok [⟨0, 6, [0xE3, 0x83, 0xBC]⟩] ∧
+    TotalIO.encode [0x30FC, 0x30FC, 0x41] = [0xE3, 0x83, 0xBC, 0xE3, 0x83, 0xBC, 0x41] := by
+  refine ⟨⟨[0x3042, 0x41], by decide⟩, ?_, exPlugin_psm, by decide⟩
+  intro p hp
+  simp only [List.mem_cons, List.not_mem_nil, or_false] at hp
+  rcases hp with rfl | rfl | rfl | rfl <;> exact ⟨_, _, _, rfl⟩
 
 /-! ### non-vacuity of the hypotheses of `tokens_partition_original` -/
 
